@@ -162,7 +162,37 @@ def C09():
                 outside=["interleaved RLE order types", "segmentations other than the seven listed", "images larger than 18x2"])
 
 
-PROPS = {"C08": C08, "C09": C09, "C13": C13, "C14": C14, "C19": C19}
+def C18():
+    jobs = [Kani("c18_data_twin", "vacuity twin", expect="fail", fail_desc="twin reached", timeout=400, mem_gb=6)]
+    for h, claim, q, unw in (
+            ("c18_per_length_roundtrip", "PER length: every value 0..0x7fff: bytes written == length(), short/long form, read_length inverse with exact consumption", True, 6),
+            ("c18_per_integer_roundtrip", "PER integer: every u32: write_integer/read_integer inverse with exact consumption", True, 8),
+            ("c18_per_integer16_roundtrip", "PER integer16: every (value, minimum) with value >= minimum: inverse", True, 6),
+            ("c18_per_oid_roundtrip", "PER object identifier: every 6-arc OID (first two arcs < 16): wire form, and it matches its own encoding", True, 10),
+            ("c18_per_oid_mismatch", "PER object identifier: read_object_identifier(o) on an encoded OID is true exactly when o is the encoded OID (all wire bytes, all o)", True, 10),
+            ("c18_per_octet_stream_roundtrip", "PER octet stream: 4 symbolic bytes, minimum 0..4: written form accepted by the reader, exact consumption", True, 8),
+            ("c18_per_small_roundtrip", "PER choice/selection/number-of-set/enumerates: every byte round trips", True, 4),
+            ("c18_data_integers", "u8, U16, U32 in both byte orders: wire order, length() == bytes written, read inverse, exact consumption (all values)", True, 6),
+            ("c18_data_bytes_sized", "sized byte block (3 symbolic bytes): write/read inverse", True, 8),
+            ("c18_data_bytes_to_end", "empty byte block reads to the end of input", False, 8),
+            ("c18_data_check", "constant-checked field accepts exactly its constant (all pairs)", True, 6),
+            ("c18_data_option", "Option: present round trips, absent writes nothing, truncated input reads as None", True, 6),
+            ("c18_data_trame", "Trame [u8, U16LE, U32BE]: length, order, round trip (all values)", True, 8),
+            ("c18_data_component_plain", "Component of three plain fields: declaration order, length, round trip (all values)", True, 12),
+            ("c18_data_component_optional_tail", "Component with an optional trailing field present or absent: round trip", False, 12),
+            ("c18_data_array", "Array of U16: written elements read back until input is exhausted", True, 8)):
+        jobs.append(Kani(h, claim, tiers=("quick", "thorough") if q else ("thorough",), bounds={"unwind": unw, "depth": 1}, symbolic=["all field values"],
+                         functions=["core::per::*" if "_per_" in h else "model::data::* (Message impls)"], timeout=900, mem_gb=8))
+    return Prop("C18", [("core/per.rs", "per.rs"), ("model/data.rs", "data.rs")], jobs, lowerings=["L2"],
+                assumptions=[S1, S6, DEV, "L2 light error payloads"], stubs=[S1],
+                text="Bounded model checking of the real Message impls and PER primitives as encode/decode pairs over their full value domains: bytes written == length(), decode(encode(v)) == v, exact consumption, for every combinator at depth 1 and every PER primitive.",
+                note="Shapes with a Size dependency between fields, containers nested in containers, the yasna-based ASN.1 wrappers and full GCC responses are NOT covered (CBMC does not terminate on them, DESIGN §2). Depth 1 only; byte blocks <= 4 bytes.",
+                technique="Kani/CBMC bounded model checking (SAT) of encode/decode round trips with symbolic field values",
+                design_ref="DESIGN.md §4 C18",
+                outside=["records with size-dependent or skippable fields (Component::read/write with MessageOption::Size/SkipField: CBMC does not finish)", "nested containers", "BER/DER (yasna) structures", "GCC conference blocks", "Version::from table (known finding D14 is checked by c18_mir_version_table)"])
+
+
+PROPS = {"C08": C08, "C09": C09, "C13": C13, "C14": C14, "C18": C18, "C19": C19}
 
 MIR_PROPS = ["C08", "C13", "C14"]
 
@@ -174,5 +204,5 @@ NOT_APPLICABLE = {
     "C15": "CHALLENGE -> AUTHENTICATE needs read_target_info (size idiom) and a 25-field emitter with three to_vec calls; neither is executable by the solver-based engines here",
     "C20": "thread interleavings, select(2) and OpenSSL record buffering are concurrency + FFI; Kani does not model them and no sequential kernel implies the property",
 }
-for _p in ["C01", "C02", "C04", "C05", "C06", "C07", "C12", "C16", "C17", "C18"]:
+for _p in ["C01", "C02", "C04", "C05", "C06", "C07", "C12", "C16", "C17"]:
     NOT_APPLICABLE.setdefault(_p, _TODO)
